@@ -127,7 +127,7 @@ func init() {
 	register(&PropSpec{
 		ID:    "C01",
 		Level: "other",
-		Explanation: "Language equality for all grammars is not a static fact about lox's source. Decided are the structural ways in which a worklist LALR construction loses lookaheads (hence reduce actions, hence sentences): recursion guards that truncate FIRST (LALR-1), change-reporting mutators skipped by short-circuit evaluation or discarded inside fixed-point loops (LALR-2), states not re-queued when a merge adds lookaheads (LALR-3), stale memoised item lists (LALR-4), merge key = LR(0) kernel (LALR-5), closure/goto skeleton (LALR-6), one action per item (LALR-7), plus the table encoding (FMT-6) and the reduce sequence / sugar shapes of the runtime (ACT-1, ACT-3). " +
+		Explanation: "Language equality for all grammars is not a static fact about lox's source. Decided are the structural ways in which a worklist LALR construction loses lookaheads (hence reduce actions, hence sentences): recursion guards that truncate FIRST (LALR-1), change-reporting mutators skipped by short-circuit evaluation or discarded inside fixed-point loops (LALR-2), states not re-queued when a merge adds lookaheads (LALR-3), stale memoised item lists (LALR-4), merge key = LR(0) kernel (LALR-5), closure/goto skeleton (LALR-6), one action per item (LALR-7), plus the table encoding (row compression FMT-5, action/goto encoding FMT-6) and the reduce sequence / sugar shapes of the runtime (ACT-1, ACT-3). " +
 			"NOT decided: that these pieces compute the LALR(1) automaton of every grammar.",
 		Run: func(c *Ctx) {
 			ruleLALR1(c)
@@ -137,6 +137,7 @@ func init() {
 			ruleLALR5(c)
 			ruleLALR6(c)
 			ruleLALR7(c)
+			ruleFMT5(c)
 			ruleFMT6(c)
 			ruleACT1(c)
 			ruleACT3(c)
@@ -294,7 +295,7 @@ func init() {
 	register(&PropSpec{
 		ID:    "C12",
 		Level: "other",
-		Explanation: "Absence of every panic and hang for all byte strings is out of reach of a static argument. Decided are seven families of crash / silent failure that are visible in code shape, each exact: panics of front-end actions whose condition depends on grammar text (CRASH-1), results of functions with an explicit `return nil` dereferenced without a check (CRASH-2), the front end's 'validated by the lexer' beliefs checked against the grammar source and the checked-in lexer tables: token-type switches with panicking defaults, escape letters and digit counts (CRASH-3), closed enum and type switches with panicking defaults (CRASH-4), results crossing the trust boundary (packages.Load, Scope.Lookup) used only under a dominating check (CRASH-5), exit discipline: non-zero exit iff error, success only after all three emitters wrote their files, every failing return preceded by a diagnostic (CRASH-6, EMIT-1), a value returned together with an error used only where a test made after the call establishes that the error is nil (CRASH-7), and the binding verdicts whose omission ends in an assert (BIND-2). " +
+		Explanation: "Absence of every panic and hang for all byte strings is out of reach of a static argument. Decided are eight families of crash / silent failure that are visible in code shape, each exact: panics of front-end actions whose condition depends on grammar text (CRASH-1), results of functions with an explicit `return nil` dereferenced without a check (CRASH-2), the front end's 'validated by the lexer' beliefs checked against the grammar source and the checked-in lexer tables: token-type switches with panicking defaults, escape letters and digit counts (CRASH-3), closed enum and type switches with panicking defaults (CRASH-4), results crossing the trust boundary (packages.Load, Scope.Lookup) used only under a dominating check (CRASH-5), exit discipline: non-zero exit iff error, success only after all three emitters wrote their files, every failing return preceded by a diagnostic (CRASH-6, EMIT-1), a value returned together with an error used only where a test made after the call establishes that the error is nil (CRASH-7), the \"cannot happen\" belief behind CreateMode's panic discharged at every call site - a mode name reaches it only after RegisterName accepted it (CRASH-8), and the binding verdicts whose omission ends in an assert (BIND-2). " +
 			"NOT decided: hangs, stack/heap exhaustion, panics inside Jet / go/format / go/packages, index arithmetic in rang3 and on_char_class.",
 		Run: func(c *Ctx) {
 			ruleCRASH1(c)
@@ -304,6 +305,7 @@ func init() {
 			ruleCRASH5(c)
 			ruleCRASH6(c)
 			ruleCRASH7(c)
+			ruleCRASH8(c)
 			ruleEMIT1(c, "CRASH-6")
 			ruleBIND2(c)
 		},
@@ -331,6 +333,21 @@ func init() {
 			ruleTPL2(c)
 			ruleTPL3(c)
 			ruleTPL4(c)
+		},
+	})
+	register(&PropSpec{
+		ID:          "C15",
+		Level:       "other",
+		Explanation: "The interval arithmetic (rang3.Flatten / Subtract / Normalize and the split/merge re-labelling in mode.go) computes on run-time range bounds and is NOT decided: that every class is the exact union of its pieces for all range lists needs enumeration or a solver. Decided are the places where a class or literal of the grammar text becomes ranges, each a necessary condition of exact denotation because a slip there changes the set for every grammar using the construct: every escape denotes its documented code point, \\x \\u \\U read exactly 2 / 4 / 8 digits in base 16 (CC-1); a class item is [c, c] for a single character and [a, b] for a-b with the dash in between, both ends decoded through unescape (CC-2); A - B is Subtract(ranges(A), ranges(B)) in that order and the front end builds the node with Left = A, Right = B (CC-3); every range of a class becomes one edge labelled with that range (CC-4); '.' is [0, 0x10FFFF], MaxRune = 0x10FFFF and negation subtracts the set from exactly [0, MaxRune] (LEX-4); a literal is one [r, r] edge per decoded rune (LEX-1); of the splitter its shapes: every piece of a split is re-queued, a merged range ends at the larger end (LEX-7), owners of split pieces accumulate (LEX-8).",
+		Run: func(c *Ctx) {
+			ruleCC1(c)
+			ruleCC2(c)
+			ruleCC3(c)
+			ruleCC4(c)
+			ruleLEX4(c)
+			ruleLEX1(c)
+			ruleLEX7(c)
+			ruleLEX8(c)
 		},
 	})
 }
